@@ -2,7 +2,6 @@ package proxy
 
 import (
 	"context"
-	"math"
 	"slices"
 	"strconv"
 	"strings"
@@ -43,16 +42,17 @@ func (s *ReplicationStreamObserver) ReportStreamValue(idx int32, value int32) {
 		return
 	}
 	s.streamGrowLock.Lock()
+	defer s.streamGrowLock.Unlock()
 	// We want to grow the minimum number of times, so
-	if idx >= int32(len(s.streamActive)) {
+	if int(idx) >= len(s.streamActive) {
 		// Each index will be uniformly random in the range [0, maxStreams). Growing by a percentage of index helps
-		// minimize the amount of reallocation required. Starting with increasing to 125% of idx to keep memory waste low
-		newSize := min(int((idx+1)*9), math.MaxInt32) / 8
+		// minimize the amount of reallocation required. Starting with increasing to 125% of idx to keep memory waste low.
+		// Computed in int: in int32 (idx+1)*9 overflows for large shard ids and the size must always exceed idx.
+		newSize := (int(idx) + 1) * 9 / 8
 		// grow and maximize
 		s.streamActive = slices.Grow(s.streamActive, newSize)[:newSize]
 	}
 	s.streamActive[idx].Add(value)
-	s.streamGrowLock.Unlock()
 }
 func (s *ReplicationStreamObserver) PrintActiveStreams() string {
 	sb := strings.Builder{}
